@@ -7,7 +7,7 @@
 
    PART 1 - arithmetic, computed directly:  BiOfInt BiIsInt BiNeg BiAbs BiCmp BiAdd BiSub BiMul BiPowInt,
      BiShl, BiShr (floor, as Python's >>: -1 >> 1 = -1), BiShrTrunc (toward zero; only used to NAME a wrong answer),
-     BiAnd, BiOr (infinite two's complement, as Python's & and |), BiIsFloorDivMod(a,b,q,r) (the relation
+     BiAnd, BiOr (infinite two's complement, as Python's & and |), BiSmallLucas (FIPS 186-4 C.3.3 for n < 2^15), BiIsFloorDivMod(a,b,q,r) (the relation
      a = q*b + r with r = 0 or r of b's sign and |r| < |b|: Python's // and %), BiIsCertifiedPrime (membership in a
      table of primes taken from standards, or trial division below 2^24).
    PART 2 - BiApiSpec(e): what one call of the Integer API MUST deliver, for a call record e = [op, a, b, c, bo, by, n, w]
@@ -98,6 +98,36 @@ BiKnownPrimes == {BiMersenne(k) : k \in BiMersenneExponents} \cup
     BiModp1536, BiModp1536Q, BiModp2048, BiModp2048Q, BiModp3072, BiModp3072Q}
 \* p (a BigNat) is prime by construction: listed above, or below 2^24 and without divisor (trial division in TLC)
 BiIsCertifiedPrime(p) == IF Len(p) <= 2 THEN BnIsSmallPrime(BnToInt(p)) ELSE p \in BiKnownPrimes
+
+\* ------------------------------------------------------------------ the Lucas test of FIPS 186-4 C.3.3 on small numbers
+\* evaluated with TLC integers for n < 2^15 (all products stay below 2^31); BiSmallLucas(n) = 1 (PROBABLY_PRIME) or 0 (COMPOSITE)
+RECURSIVE BiSmallJacobi(_,_)
+BiSmallJacobi(a, n) == \* Jacobi symbol, n odd positive, 0 <= a < n
+   IF a = 0 THEN (IF n = 1 THEN 1 ELSE 0)
+   ELSE IF a % 2 = 0 THEN (IF n % 8 = 3 \/ n % 8 = 5 THEN 0 - BiSmallJacobi(a \div 2, n) ELSE BiSmallJacobi(a \div 2, n))
+   ELSE IF a = 1 THEN 1
+   ELSE IF a % 4 = 3 /\ n % 4 = 3 THEN 0 - BiSmallJacobi(n % a, a) ELSE BiSmallJacobi(n % a, a)
+RECURSIVE BiSmallIsSquareFrom(_,_)
+BiSmallIsSquareFrom(n, s) == IF s * s > n THEN FALSE ELSE IF s * s = n THEN TRUE ELSE BiSmallIsSquareFrom(n, s + 1)
+RECURSIVE BiSmallLucasD(_,_)
+\* the first D in 5, -7, 9, -11, ... with (D/n) = -1; 0 when some (D/n) = 0 first (then n is composite)
+BiSmallLucasD(n, d) == IF d = n \/ 0 - d = n THEN BiSmallLucasD(n, IF d > 0 THEN 0 - (d + 2) ELSE 2 - d)
+                 ELSE LET j == BiSmallJacobi(d % n, n) IN
+                      IF j = 0 THEN 0 ELSE IF j = -1 THEN d ELSE BiSmallLucasD(n, IF d > 0 THEN 0 - (d + 2) ELSE 2 - d)
+BiSmallHalf(x, n) == (IF x % 2 = 1 THEN x + n ELSE x) \div 2
+RECURSIVE BiSmallLucasLoop(_,_,_,_,_,_)
+BiSmallLucasLoop(n, dm, k, i, u, v) == \* dm = D mod n; k = n + 1; processes bit i of k
+   IF i < 0 THEN u
+   ELSE LET ut == (u * v) % n
+            vt == BiSmallHalf((((v * v) % n) + ((((u * u) % n) * dm) % n)) % n, n) % n
+        IN IF (k \div (2 ^ i)) % 2 = 1
+           THEN BiSmallLucasLoop(n, dm, k, i - 1, BiSmallHalf((ut + vt) % n, n) % n, BiSmallHalf((vt + ((ut * dm) % n)) % n, n) % n)
+           ELSE BiSmallLucasLoop(n, dm, k, i - 1, ut, vt)
+BiSmallLucas(n) == \* 1 = PROBABLY_PRIME, 0 = COMPOSITE
+   IF n \in {2, 3, 5} THEN 1 ELSE IF n % 2 = 0 \/ BiSmallIsSquareFrom(n, 1) THEN 0
+   ELSE LET d == BiSmallLucasD(n, 5) IN
+        IF d = 0 THEN 0 ELSE IF BiSmallLucasLoop(n, d % n, n + 1, BnLimbBits(n + 1) - 2, 1, 1) = 0 THEN 1 ELSE 0
+
 
 \* ================================================================== PART 2: the Integer API as a specification
 BiShiftLimit == 65536
@@ -258,11 +288,10 @@ BiJudge(x, o, e) ==
    ELSE IF x.k = "bytes" THEN (IF o.tn # "bytes" THEN "returns " \o o.tn \o " instead of bytes"
                                ELSE IF o.by # x.by THEN "returns bytes that are not the exact result" ELSE "ok")
    ELSE IF x.k = "NoneType" THEN (IF o.tn # "NoneType" THEN "returns " \o o.tn \o " instead of None" ELSE "ok")
-   ELSE IF o.tn \notin {"Integer", "int", "bool"} THEN "returns " \o o.tn \o " instead of " \o x.k
-   ELSE IF o.v \notin x.vs THEN BiWrongValue(o, e)
-   ELSE IF o.tn # x.k THEN "returns " \o o.tn \o " instead of " \o x.k
-   ELSE IF o.ip /\ o.self \notin x.vs THEN "does not leave the result in the receiver"
+   ELSE IF o.tn \in {"Integer", "int", "bool"} /\ o.v \notin x.vs THEN BiWrongValue(o, e)
+   ELSE IF o.ip /\ o.self \notin x.vs THEN "does not leave the result in the receiver"      \* (also judged when the call returns None)
    ELSE IF ~o.ip /\ o.self # e.a THEN "changes the receiver"
+   ELSE IF o.tn # x.k THEN "returns " \o o.tn \o " instead of " \o x.k
    ELSE "ok"
 
 \* ================================================================== self-test
@@ -322,7 +351,14 @@ ASSUME LET e == BiE("rshift", -5, 1, 0, <<>>)  x == BiApiSpec(e) IN
           /\ BiJudge(x, BiO("Integer", "none", -3, -5, TRUE), e) = "does not leave the result in the receiver"
           /\ BiJudge(x, BiO("Integer", "none", -3, -3, FALSE), e) = "changes the receiver"
           /\ BiJudge(x, BiO("none", "ValueError", 0, -5, FALSE), e) = "raises ValueError where a result exists"
+          /\ BiJudge(x, BiO("NoneType", "none", 0, -3, TRUE), e) = "returns NoneType instead of Integer"
+          /\ BiJudge(x, BiO("NoneType", "none", 0, -5, TRUE), e) = "does not leave the result in the receiver"
+          /\ BiJudge(x, BiO("Integer", "none", -2, -2, TRUE), e) = "truncates toward zero"
 ASSUME LET e == BiE("mod", 5, 0, 0, <<>>)  x == BiApiSpec(e) IN
           /\ BiJudge(x, BiO("none", "ZeroDivisionError", 0, 5, FALSE), e) = "ok" /\ BiJudge(x, BiO("Integer", "none", 0, 5, FALSE), e) = "returns a value where no result exists"
           /\ BiJudge(x, BiO("none", "ValueError", 0, 5, FALSE), e) = "raises ValueError instead of ZeroDivisionError"
+\* the odd composites below 12000 that pass are exactly the Lucas pseudoprimes of the literature (OEIS A217120)
+ASSUME {n \in 7..12000 : n % 2 = 1 /\ ~BnIsSmallPrime(n) /\ BiSmallLucas(n) = 1} = {323, 377, 1159, 1829, 3827, 5459, 5777, 9071, 9179, 10877, 11419, 11663}
+ASSUME \A n \in 2..3000 : BnIsSmallPrime(n) => BiSmallLucas(n) = 1
+ASSUME BiSmallLucas(16109) = 1 /\ BiSmallLucas(18971) = 1 /\ BiSmallLucas(16111) = 1 /\ BiSmallLucas(16113) = 0
 =============================================================================
